@@ -1183,6 +1183,8 @@ def replay(obj):
         msg = replay_mask(r)
     elif kind in ('slices', 'from_float', 'boxalg'):
         msg = box_replay(r)
+    elif kind == 'to_image':
+        msg = to_image_check(r)
     elif kind == 'shift':
         case = dict(fam=r['fam'], params=r['params'], px=r['px'], py=r['py'], method=r['method'], sub=r['sub'])
         m1 = make_aperture(case).to_mask(method=case['method'], subpixels=case['sub'])
